@@ -241,7 +241,8 @@ MapRule(dl) == IF IsMap(dl) /\ dl.mapkey \notin MapKeyOK THEN {"V-map-key"} ELSE
                                Expected string for field default value. *)
 ScalarDefaultOK(s, v) ==
   CASE s \in IntScalars -> v = "7" [] s = "bool" -> v = "true" [] s \in {"string", "bytes"} -> v = "hi"
-    [] OTHER -> FALSE          \* float / double defaults are not in the modelled fragment
+    [] s \in {"float", "double"} -> v \in {"7", "0.1", "1e30"}
+    [] OTHER -> FALSE
 DefaultRule(F, dl) ==
   IF dl.dflt = "" THEN {}
   ELSE (IF F.syntax = "proto3" THEN {"V-p3-default"} ELSE {})
@@ -427,6 +428,12 @@ OptsD(ws, env, g, d) ==
   IN Opt(opts # <<>>, [ext_options |-> OptNumsD(ws, env, g, d, opts)])
 LabelD(dl) == IF dl.label = "repeated" \/ IsMap(dl) THEN "LABEL_REPEATED"
               ELSE IF dl.label = "required" THEN "LABEL_REQUIRED" ELSE "LABEL_OPTIONAL"
+(* D-default-value: the text protoc stores.  Integers, booleans, strings and enum value NAMES (the name
+   as spelled, also when it is the second alias of a number) are kept; a float / double default is
+   printed by SimpleFtoa / SimpleDtoa, the shortest text that reads back as the same float32 / float64:
+   0.1 stays "0.1" for both types, 1e30 becomes "1e+30" (C exponent form).  Table over the generator values. *)
+DefaultText(v) == IF v = "1e30" THEN "1e+30" ELSE v
+
 (* oneofPos: 0 = not in a oneof, else 1-based position of its oneof declaration *)
 FieldD(ws, env, g, d, oneofPos) ==
   LET F == ws[g]  dl == F.decls[d]
@@ -443,7 +450,7 @@ FieldD(ws, env, g, d, oneofPos) ==
      @@ Opt(dl.kind = "ext", [extendee |-> Dot(x.fqn)])
      @@ Opt(oneofPos > 0, [oneof_index |-> oneofPos - 1])
      @@ Opt(F.syntax = "proto3" /\ dl.label = "optional", [proto3_optional |-> TRUE])
-     @@ Opt(dl.dflt # "", [default_value |-> dl.dflt])
+     @@ Opt(dl.dflt # "", [default_value |-> DefaultText(dl.dflt)])
      @@ Opt(dl.dep, [deprecated |-> TRUE])
      @@ OptsD(ws, env, g, d)
 
